@@ -50,7 +50,7 @@ RULE = (
     "without base, active, active with ROI}; ColorCorrection {inactive, darsia, colour, custom reference+linear+clip}; IlluminationCorrection "
     "7 colour spaces + 2 unit scalings; TransformationCorrection with affine maps {identity, shift, fitted identity, fitted shift, quarter "
     "turn, resampling; 3-D identity, shift} and generalised perspective {fitted identity, shift, resampling}) x input kind {ndarray, "
-    "ndarray RGB, ScalarImage, general vector Image, OpticalImage, scalar series, optical series; 3-D: ndarray, scalar Image, scalar series} "
+    "ndarray RGB, ScalarImage, general vector Image, OpticalImage, scalar series, optical series, series with a single time step; 3-D: ndarray, scalar Image, scalar series} "
     "the correction accepts x dtype {uint8, uint16, float32, float64} x shapes; BFS over (correction, input) with ops overwrite in {F, T} to "
     "the stated depth with de-duplication + all sequences of length <= 2 without; successors of an overwrite that changed the array shape "
     "are not expanded (shape-configured corrections). compose roots: ordered correction pairs x image kinds x dtypes. reconfigure roots: "
@@ -69,8 +69,8 @@ ASSUMPTIONS = [
 
 D0 = datetime.datetime(2023, 5, 1, 12, 0, 0)
 DTYPES = ["uint8", "uint16", "float32", "float64"]
-K2D = ["array", "array-rgb", "scalar", "image", "optical", "scalar-series", "optical-series"]
-KRGB = ["array-rgb", "image", "optical", "optical-series"]
+K2D = ["array", "array-rgb", "scalar", "image", "optical", "scalar-series", "optical-series", "scalar-series1", "optical-series1"]
+KRGB = ["array-rgb", "image", "optical", "optical-series", "optical-series1"]
 K3D = ["array3d", "scalar3d", "scalar3d-series"]
 KCLASS = {
     "array": "array",
@@ -83,6 +83,9 @@ KCLASS = {
     "scalar-series": "scalar-series",
     "scalar3d-series": "scalar-series",
     "optical-series": "vector-series",
+    # series with exactly ONE time step (a series all the same)
+    "scalar-series1": "scalar-series",
+    "optical-series1": "vector-series",
 }
 SHAPES = {
     "quick": {"2d": [(5, 5), (6, 8)], "wide": [(5, 5), (6, 8)], "3d": [(3, 4, 5)], "checker": [(40, 60)], "drift": [(160, 200)]},
@@ -178,6 +181,8 @@ def cases(tier):
             for kind in cfg["kinds"]:
                 for dt in cfg["dtypes"] or DTYPES:
                     if tier == "quick" and cfg["weight"] == "heavy" and cfg["dtypes"] is None and dt in ("uint16", "float32"):
+                        continue
+                    if kind.endswith("series1") and (dt in ("uint16", "float32") or shape != SHAPES[tier][cfg["shapes"]][0]):
                         continue
                     out.append({"kind": "bfs", "config": name, "input": kind, "dtype": dt, "shape": list(shape), "depth": DEPTH[tier][cfg["weight"]]})
     for c1, c2, kinds in PAIRS:
@@ -316,6 +321,10 @@ def _make_input(kind, shape, dtype, special="2d"):
         return darsia.Image(rgb(), space_dim=2, scalar=False, dimensions=dims, origin=[1.0, 4.0], time=1.5, name="general")
     if kind == "optical":
         return darsia.OpticalImage(rgb(), dimensions=dims, color_space="RGB", name="optical")
+    if kind == "scalar-series1":
+        return darsia.ScalarImage(payload(shape + (1,), dtype), dimensions=dims, series=True, time=[2.5], name="scalar-series1")
+    if kind == "optical-series1":
+        return darsia.OpticalImage(rgb(1), dimensions=dims, series=True, date=[D0], reference_date=D0 - datetime.timedelta(hours=1), color_space="RGB", name="optical-series1")
     if kind == "scalar-series":
         return darsia.ScalarImage(payload(shape + (NT,), dtype), dimensions=dims, series=True, time=[0.0, 2.5], name="scalar-series")
     if kind == "optical-series":
@@ -869,6 +878,7 @@ RECONF = [
     ("curvature/bulge", "curvature/zero", "load"),
     ("curvature/zero", "curvature/stretch", "load"),
     ("type/uint8", "type/uint16", "load"),
+    ("drift/active", "drift/inactive", "load"),
 ]
 
 
